@@ -280,6 +280,25 @@ func runShard(self, id, tier string, shard, nsh int, deadline int64, a *agg, mu 
 			log("ERROR cannot start worker: %v", err)
 			return
 		}
+		// safety net: a worker that overruns the tier's deadline by more than the grace period (one case
+		// that is slow without being stuck) is stopped; the run is then reported as capped
+		var killedForDeadline int32
+		grace := int64(envInt("VERIF_GRACE_S", 240))
+		stopTimer := make(chan struct{})
+		go func() {
+			for {
+				select {
+				case <-stopTimer:
+					return
+				case <-time.After(2 * time.Second):
+					if time.Now().Unix() > deadline+grace {
+						atomic.StoreInt32(&killedForDeadline, 1)
+						cmd.Process.Kill()
+						return
+					}
+				}
+			}
+		}()
 		var lastSum wireSum
 		haveSum := false
 		var hang *wireFail
@@ -320,11 +339,22 @@ func runShard(self, id, tier string, shard, nsh int, deadline int64, a *agg, mu 
 			}
 		}
 		err := cmd.Wait()
+		close(stopTimer)
 		mu.Lock()
 		if haveSum {
 			mergeSum(&a.sum, lastSum)
 		}
+		if atomic.LoadInt32(&killedForDeadline) == 1 {
+			a.sum.Capped = true
+			if a.sum.Counters == nil {
+				a.sum.Counters = map[string]int64{}
+			}
+			a.sum.Counters["workers_stopped_after_deadline_and_grace"]++
+		}
 		mu.Unlock()
+		if atomic.LoadInt32(&killedForDeadline) == 1 {
+			return
+		}
 		if err == nil && haveSum && lastSum.Final {
 			return
 		}
